@@ -389,6 +389,16 @@ def run(ctx):
                 if not any(x.kind == 'call' and x.args[0] == 'apply' and x.args[1] and x.args[1][0].key != sym('path').key
                            for x in T.all_atoms(inc).values()):
                     steps.append((e, inc))
+    # (a centre that the engine recognised as an induction variable -- x_k = x_0 + k*c -- carries its increment c in the loop)
+    for e in I4.events:
+        if e.kind == 'loop' and e.owner == fi.short:
+            for nm_, c_ in (e.data['info'].get('induction') or {}).items():
+                if any(x.kind == 'call' and x.args[0] == 'apply' and x.args[1] and x.args[1][0].key == sym('path').key
+                       for x in T.all_atoms(c_).values()):
+                    inc = untiled(c_)
+                    if not any(x.kind == 'call' and x.args[0] == 'apply' and x.args[1] and x.args[1][0].key != sym('path').key
+                               for x in T.all_atoms(inc).values()):
+                        steps.append((e, inc))
     for e in I4.events:
         vals = [e.data.get('value')] if e.kind == 'store' else []
         for v in vals:
